@@ -372,7 +372,7 @@ class Doist(tyming.Tymist):
 
         for doer in doers:
             if own and (doer not in self.doers or
-                        any(deed[2] is doer for deed in deeds)):
+                        any(deed[2] == doer for deed in deeds)):
                 continue  # removed or already entered by some prior doer's enter
             try:
                 doer.done = False  # False at enter. False signals incomplete
@@ -1295,7 +1295,7 @@ class DoDoer(Doer):
 
         for doer in doers:
             if own and (doer not in self.doers or
-                        any(deed[2] is doer for deed in deeds)):
+                        any(deed[2] == doer for deed in deeds)):
                 continue  # removed or already entered by some prior doer's enter
             try:
                 doer.done = False  # False at enter. False signals incomplete
